@@ -70,6 +70,12 @@ Definition ftot (fs : list fund) : N := fold_right (fun f acc => f_amt f + acc) 
 Lemma ftot_app a b : ftot (a ++ b) = ftot a + ftot b.
 Proof. induction a as [|x a IH]; cbn; [reflexivity|]. unfold ftot in *. cbn. rewrite IH. lia. Qed.
 
+Lemma ftot_insert_at i x fs : ftot (insert_at i x fs) = ftot fs + f_amt x.
+Proof.
+  unfold insert_at. rewrite <- (firstn_skipn i fs) at 3. rewrite !ftot_app.
+  change (ftot (x :: skipn i fs)) with (f_amt x + ftot (skipn i fs)). lia.
+Qed.
+
 Lemma ftot_upd fs owner f nf :
   find_fund fs owner = Some f ->
   ftot (upd_fund fs owner nf) + f_amt f = ftot fs + match nf with Some x => f_amt x | None => 0 end.
@@ -204,7 +210,10 @@ Proof.
       pose proof (ftot_upd (d_funds x) signer f (Some (mkfund signer x0 (if rev then f_unlock f else wadd top_h (unlock_time cfg)))) Ef) as Hu.
       cbn [f_amt] in Hu. pose proof (find_fund_le _ _ _ Ef) as Hfl.
       apply safe_add_some in E2; [|lia|exact Ha64]. lia.
-    - injection E0 as <-. rewrite ftot_app. unfold ftot at 2. cbn. lia. }
+    - injection E0 as <-.
+      destruct (if rev then saved_fund l txid (d_id x) signer else None) as [[u i]|].
+      + rewrite ftot_insert_at. cbn [f_amt]. lia.
+      + rewrite ftot_app. unfold ftot at 2. cbn. lia. }
   split; [|reflexivity].
   apply (replace_SInv l x id a (staked l + amt)); [exact HI|exact E|reflexivity|reflexivity|lia|exact H64].
 Qed.
